@@ -2,6 +2,7 @@ package props
 
 import (
 	"go/token"
+	"strings"
 
 	"golang.org/x/tools/go/ssa"
 
@@ -107,6 +108,10 @@ func noEffectBeforeError(p *load.Program, r *kit.Report, rule string, f *ssa.Fun
 func checkC08(p *load.Program, r *kit.Report) {
 	importRules(p, r, "C17", "a header that was removed from a branch must also leave its hash map, or later submissions are answered \"already known\" / find a parent that is gone", 2, nil, "SHRINK-SIBLING")
 	importRules(p, r, "C09", "parent lookup, duplicate test and the depth test all use the stored hash→height labels: a wrong label gives a wrong verdict", 11, nil, "HEIGHT-LABEL")
+	importRules(p, r, "C11", "the `marked invalid` verdict after a restart comes from the list load builds: stored hashes ∪ every configured hash", 2,
+		func(o *kit.Obligation) bool { return strings.HasPrefix(o.Construct, "load/invalid-list") || strings.HasPrefix(o.Construct, "load/every-configured") }, "MERGE-SHAPE")
+	r.Rule("CONFIG-AS-GIVEN", "the MaxBranchDepth the depth test reads is the caller's: Config.MaxBranchDepth is written nowhere but in DefaultConfig's literal, and NewRepository stores the config it was given (0 means `no fork below the tip`, it is not a request for the default)", 2)
+	checkConfigAsGiven(p, r, "CONFIG-AS-GIVEN")
 	r.NotDecided = "that each verdict equals the reference model's for adversarial inputs; byte-equality of a later Save; behaviour over histories."
 	r.Rule("NO-EFFECT-BEFORE-ERROR", "in ProcessHeader no path leads from an effect on repository state (field writes of Repository/Branch/HeaderData on non-fresh objects, channel sends, calls to mutators; a fallible mutator's effects are attributed to the result edges that are not effect-free) to a return whose error is not provably nil", 12)
 	r.Rule("ORDER", "the refusal checks precede every effect: each effect point is dominated by the pass edge of the work, parent, duplicate, split, bits, invalid-list guards, and the new-branch arm by the depth guard", 4)
@@ -479,4 +484,64 @@ func extractOf(call *ssa.Call, idx int) ssa.Value {
 		}
 	}
 	return nil
+}
+
+
+// checkConfigAsGiven: nothing rewrites Config.MaxBranchDepth and NewRepository keeps the caller's
+// config object.
+func checkConfigAsGiven(p *load.Program, r *kit.Report, rule string) {
+	mbd := p.Field(H, "Config", "MaxBranchDepth")
+	cfgF := p.Field(H, "Repository", "config")
+	if mbd == nil || cfgF == nil {
+		r.Unknown(rule, "Config.MaxBranchDepth", "-", "fields not found")
+		return
+	}
+	dc := p.Func(H, "DefaultConfig")
+	k := newKeyer()
+	bad := false
+	for _, f := range pkgFuncs(p, H, R) {
+		if strings.HasSuffix(p.FileOf(f.Pos()), "_test.go") {
+			continue
+		}
+		for _, w := range kit.DirectWrites(f) {
+			if w.Field != mbd {
+				continue
+			}
+			if f == dc {
+				continue
+			}
+			bad = true
+			r.Bad(rule, k.key(kit.ShortID(kit.FuncID(f))+"/store:MaxBranchDepth"), posOf(p, w.Instr), "Config.MaxBranchDepth is overwritten outside DefaultConfig: the depth test no longer compares with the caller's value (a configured 0 — no fork below the tip — would admit forks)")
+		}
+	}
+	if !bad {
+		r.OK(rule, "Config.MaxBranchDepth/writers", "-", "written only in DefaultConfig's literal")
+	}
+	nr := fn(p, r, rule, H, "NewRepository")
+	if nr == nil {
+		return
+	}
+	why := "NewRepository does not store a config"
+	for _, w := range kit.DirectWrites(nr) {
+		if w.Field != cfgF {
+			continue
+		}
+		isCopy := false
+		if a, ok := kit.Strip(w.Val).(*ssa.Alloc); ok && len(nr.Params) > 0 {
+			// a defensive copy `c := *config; … &c` is the caller's configuration as well
+			kit.AllInstrs(nr, func(in ssa.Instruction) {
+				if st, ok := in.(*ssa.Store); ok && st.Addr == ssa.Value(a) {
+					if u, ok := st.Val.(*ssa.UnOp); ok && u.Op == token.MUL && kit.Strip(u.X) == ssa.Value(nr.Params[0]) {
+						isCopy = true
+					}
+				}
+			})
+		}
+		if len(nr.Params) > 0 && (kit.Strip(w.Val) == ssa.Value(nr.Params[0]) || isCopy) {
+			why = ""
+		} else {
+			why = "Repository.config is " + describe(kit.Strip(w.Val)) + ", not the config passed to NewRepository"
+		}
+	}
+	r.Check(why == "", rule, "NewRepository/config", posOf(p, nr.Blocks[0].Instrs[0]), "Repository.config is the caller's config", why)
 }
